@@ -139,7 +139,7 @@ pub fn replay_history(role: Role, hist: &[Ev], path: u8) -> Result<(), String> {
         },
         Some(Want::EndTruncated) => match (&got.fin, path) {
             (Fin::NeedMore, 0 | 1) => Ok(()),
-            (Fin::FinPartial, 2) => Ok(()),
+            // RFC 9114 section 7.1: the typestate readers turn a frame cut by the end of the stream into H3_FRAME_ERROR
             (Fin::Err(e), 2) if lib_code(e) == Some(rc::reg::H3_FRAME_ERROR) => Ok(()),
             (f, _) => Err(format!("end of stream inside a frame reported as {f:?}")),
         },
